@@ -568,8 +568,15 @@ def gen_c04_spec(rng: random.Random, A: int, P: int) -> Dict[str, Any]:
             msgs.append({"at": round(t, 6), "task": "t_sync", "ackable": True, "ack_kind": rng.choice(["sync", "async", "async", "awaitable", "task"]),
                          "beh": {"dur": [], "sync_hold": rng.choice([0.5, 1.0, 2.0, 5.0]), "out": rng.choice(["ok", "ok", "raise:ValueError"])}})
             continue
-        msgs.append({"at": round(t, 6), "task": "t_async", "ackable": True, "ack_async": rng.random() < 0.5,
-                     "ack_lat": rng.choice([0, 0.05]), "beh": {"dur": dur, "out": rng.choice(["ok", "ok", "raise:ValueError"])}})
+        msgs.append({"at": round(t, 6), "task": "t_async", "ackable": True,
+                     "ack_kind": rng.choice(["sync", "async", "async", "awaitable", "task"]),
+                     "ack_lat": rng.choice([0, 0.05, 0.4]), "beh": {"dur": dur, "out": rng.choice(["ok", "ok", "raise:ValueError"])}})
+        if rng.random() < 0.15:
+            # a timeout label that fires: the slot must stay taken until the function has really stopped
+            msgs[-1]["timeout"] = rng.choice([0.05, 0.2])
+            msgs[-1]["beh"]["dur"] = [rng.choice([1.0, "never"])]
+            if rng.random() < 0.5:
+                msgs[-1]["beh"]["cleanup"] = rng.choice([["y"], [0.3]])
     spec: Dict[str, Any] = {"cfg": {"A": A, "P": P, "ack": "when_saved", "threads": 32}, "msgs": msgs,
                             "backend": {"lat": rng.choice([0, 0.05, 0.2])}}
     if rng.random() < 0.25:
@@ -596,7 +603,7 @@ class C04(WorkerCheck):
     floors = {"events.yield": 1000, "counters.pairs_covered": 20}
     quick_cases = 1600
     thorough_cases = 30000
-    assumptions = ["a message is finished when Receiver.callback() has returned (incl. ack)"]
+    assumptions = ["a message is finished when Receiver.callback() has returned, its task function body has ended and its acknowledgement has completed (an ackable well-formed message whose processing did not abort is unfinished until then)"]
 
     def cases(self, rng: random.Random, tier: str, shard: int, nshards: int) -> Iterator[Any]:
         while True:
@@ -622,12 +629,24 @@ class C04(WorkerCheck):
         merged["counters"]["pairs_covered"] = sum(1 for k in merged["counters"] if k.startswith("max_A"))
 
     def selftest(self) -> List[str]:
+        class _SC:
+            deliveries = [{"d": i, "ackable": True, "kind": "valid"} for i in range(4)]
+
         class _RR:
-            pass
+            sc = _SC()
         r = _RR()
         r.trace = [{"i": i, "t": 0, "k": "yield", "m": i} for i in range(4)]
         v, mx = O.oracle_c04(r, {"cfg": {"A": 1, "P": 1}})
-        return [] if v and mx == 4 else ["C04 oracle missed bound excess"]
+        fails = [] if v and mx == 4 else ["C04 oracle missed bound excess"]
+        # callback returned but the acknowledgement never completed -> still unfinished
+        r.trace = []
+        for i in range(4):
+            r.trace += [{"k": "yield", "m": i}, {"k": "task_start", "m": i}, {"k": "task_end", "m": i}, {"k": "cb_exit", "m": i}]
+        r.trace = [dict(e, i=j, t=0) for j, e in enumerate(r.trace)]
+        v, mx = O.oracle_c04(r, {"cfg": {"A": 1, "P": 1}})
+        if not v:
+            fails.append("C04 oracle missed un-acknowledged finished callbacks")
+        return fails
 
 
 # ====================================================================================
